@@ -42,21 +42,19 @@ def run(res, tier):
     quick = tier == "quick"
     kc.model_check(res, maxcyc=1)
     with scratch("c02_") as sdir:
-        c = kc.Corpus(res, "c02")
-        c.add(kc.grid_designs())
-        c.add(kc.explicit_designs())
-        c.add(kc.rand_designs("c02r", 15 if quick else 400, opts={"stmts_per_block": 3, "nets": 0.6}))
-        c.load(sdir)
-        c.run_modes(kernel.MODES, cycles=1 if quick else 3, seeds=(0,) if quick else (0, 1, 2, 3), recheck=False,
-                    sched_only=lambda d: d.family == "novarcycle")
-        c.run_forced(limit=4 if quick else 200, cycles=1,
-                     only=lambda d: d.family in ("grid", "explicit") or not quick)
-        verdicts = c.validate("C02")
-        c.canaries(verdicts)
+        designs = kc.grid_designs() + kc.explicit_designs() + \
+            kc.rand_designs("c02r", 15 if quick else 400, opts={"stmts_per_block": 3, "nets": 0.6})
+
+        def drive(c):
+            c.run_modes(kernel.MODES, cycles=1 if quick else 3, seeds=(0,) if quick else (0, 1, 2, 3), recheck=False,
+                        sched_only=lambda d: d.family == "novarcycle")
+            c.run_forced(limit=4 if quick else 200, cycles=1,
+                         only=lambda d: d.family in ("grid", "explicit") or not quick)
+        c, ndesigns = kc.run_chunked(res, "c02", "C02", sdir, designs, len(designs) if quick else 80, drive)
         res.sample({"design": c.djs[3]["name"], "source": c.designs[3].py_source(),
                     "steps": [s["name"] for s in c.djs[3]["steps"]],
                     "order_seen": [e["b"] for e in c.traces[7]["ev"] if e["k"] == "step"]})
-    res.note("designs", len(c.designs))
+    res.note("designs", ndesigns)
     res.note("rule", "a case = (design, scheduler | forced linear extension); the grid enumerates writer shape x "
              "reader shape x {block, net} x {same component, child}; explicit family = inverted / extra / cyclic U<U")
     res.assume("generated designs")
